@@ -169,6 +169,13 @@ int main(int argc, char** argv) {
         } else if (what == "fp") { m = e_new_fp(w.in, w.out, c.fptype, c.fptrack, c.e1, c.dt);
         } else if (what == "identity") { m = e_new_identity(w.in, w.out);
         } else { fprintf(stderr, "unknown what=%s\n", what.c_str()); return 2; }
+        if (in.has("set_off")) {      // a counterexample's displacement field put into a constructor-made kick-type map (the public swapOffset rebuilds the table as _calcKick does)
+            auto off = in.fv("set_off"); off.resize((size_t)c.nb * c.n); static_cast<KickMap*>(m)->swapOffset(off); }
+        if (in.has("pre_apply")) {      // an earlier step of this process by one of the world's own maps (history across map kinds)
+            std::string pa = in.kv["pre_apply"][0];
+            if (pa == "kmy") e_km_swap_apply(w.kmy, w.offy); else if (pa == "kmx") e_km_swap_apply(w.kmx, w.offx);
+            else if (pa == "rflin") w.rflin->apply(); else if (pa == "rfsin") w.rfsin->apply(); else if (pa == "drift") w.drift->apply(); else if (pa == "fpm") w.fpm->apply(); else if (pa == "idm") w.idm->apply();
+        }
         dumpf(fo, "in", (*w.in)->getData(), N);
         m->apply();
         dumpf(fo, "out", (*w.out)->getData(), N);
